@@ -135,6 +135,9 @@ def check(prog: Program, rep):
     c14.splice_rule(prog, px, "C14.R1")
     from rules.providers import given_weights_integral
     given_weights_integral(prog, rep, "C07.R8", ["kLeastAbsErrors"])
+    from rules.c04 import repetition_caps as _rc_caps
+    from rules.common import RuleProxy as _RPcaps
+    _rc_caps(prog, _RPcaps(rep, "C07.R8"), "C04.R5")
     from rules.providers import given_weights_above_coefficient_threshold
     given_weights_above_coefficient_threshold(prog, rep, "C07.R8", ["kLeastAbsErrors"])
     from rules.values import coefficients_converted
